@@ -4,24 +4,32 @@
 usage: hashiter.py <repo> <out.v> [--dump]
 
 What counts as a *hashy name* (over-approximation, purely textual):
-  * a type alias whose right-hand side mentions HashMap / HashSet / IdMap (fixpoint), e.g. IdMap itself;
+  * a type alias whose right-hand side mentions HashMap / HashSet / IdMap (fixpoint), e.g. IdMap itself; a tuple struct
+    with such a field (then `self.N` inside its impls);
   * a struct field, fn parameter, closure parameter or `let` binding whose declared type mentions a hashy type;
-  * a `let` binding whose initialiser mentions a hashy type (`IdMap::new()`, `.collect::<HashMap<..>>()`) or calls a
-    hashy function;
+  * a `let` binding whose initialiser mentions a hashy type (`IdMap::new()`, `.collect::<HashMap<..>>()`), calls a
+    hashy function, or is an alias of a hashy place (`let x = &self.a.b;`, `.last().unwrap()`, `.clone()`; `.get(k)` /
+    `.entry(k)..` / `[k]` when the container is nested);
+  * the names bound by the pattern of a `for` over a nested hash container;
   * a function whose return type mentions a hashy type;
   * a function that returns an iterator (`Iterator`, `Iter`, `Keys`, `Values`, `Drain` in its return type) and whose body
-    contains a site (fixpoint) -- the callers then iterate the hash container through it.
-  Field and function names are global (a field `enums` makes every `.enums` hashy, whatever struct it is on);
-  `let`/parameter names are local to the enclosing `fn` item.
+    contains a site (fixpoint) -- the callers then iterate the hash container through it (site kind "call").
+  A hash-typed FIELD name is global when it is used as a field (`x.enums`, whatever the type of x); the bare identifier
+  counts only if the same name is a hash-typed parameter somewhere, or the enclosing fn destructures a struct that owns
+  such a field (`let Visitor { next_numbers, .. } = self`).  `let`/parameter names are local to the enclosing `fn` item.
 A *site* is an occurrence of
   * `for PAT in EXPR` where EXPR mentions a hashy name,
   * `RECV.m(` for m in ITER_METHODS where the receiver chain mentions a hashy name,
   * `.extend(ARG)`, `.chain(ARG)`, `.zip(ARG)`, `from_iter(ARG)` where ARG mentions a hashy name,
+  * a call of an iterator-returning hashy function,
   * a formatting macro with a `?` (Debug) placeholder and a hashy name among its arguments, or bare `self` inside an
     impl of a struct that has a hash-typed field.
-Each site is keyed line-independently by (file, enclosing fn, kind, normalised header text) and carries a digest of
-the whole enclosing statement (for a `for` loop: header and body; otherwise the statement up to its `;`), so that an
-edit of the consumer invalidates the audited classification (Model/OrderSites.v).
+Each site is keyed line-independently by (file, enclosing fn, kind, normalised header text, occurrence number) and carries
+three digests: of the declared types of the hashy names involved, of the whole enclosing statement (for a `for` loop:
+header and body; otherwise the statement up to its `;`; for a "call": also the callee), and of the whole enclosing fn --
+comments and string-literal contents excluded -- so that an edit of an audited consumer invalidates its classification
+(Model/OrderSites.v).  Known blind spots: a hash container handed to a generic `impl IntoIterator` parameter, one whose
+type is never written (`let x = Default::default()` never passed to a typed parameter), containers inside dependencies.
 Files reachable only through `#[cfg(test)] mod x;` and inline `#[cfg(test)] mod x { .. }` are skipped and listed."""
 import sys, re, os, hashlib
 from rsparse import write_if_changed, coq_string
@@ -357,11 +365,15 @@ def scan(repo):
     hashy_types |= tuple_structs
     # structs with a hashy named field: `{:?}` of `self` inside their impls prints the container in iteration order
     hashy_structs = set(tuple_structs)
+    struct_extents = {}   # rel -> [(open, close, name)]
     for rel, (raw, s) in files.items():
         for m in re.finditer(r'\bstruct\s+(%s)\s*(?:<[^;{(]*>)?\s*(?:where[^{;]*)?\{' % IDENT, s):
             e = match_close(s, m.end() - 1)
-            if e > 0 and base_ty_re.search(s[m.end():e]):
-                hashy_structs.add(m.group(1))
+            if e > 0:
+                struct_extents.setdefault(rel, []).append((m.end() - 1, e, m.group(1)))
+                if base_ty_re.search(s[m.end():e]):
+                    hashy_structs.add(m.group(1))
+    struct_fields = {}    # field name -> set of structs that declare it with a hashy type
     ty_re = re.compile(r'\b(%s)\b' % '|'.join(sorted(hashy_types)))
     # ---- per file structure
     info = {}
@@ -408,6 +420,8 @@ def scan(repo):
                 local_names.setdefault((rel, f.start), {})[name] = 'local: ' + norm(ty)
             else:
                 global_names.setdefault(name, set()).add('field: ' + norm(ty))
+                for (b, e, sn) in struct_extents.get(rel, []):
+                    if b <= m.start() <= e: struct_fields.setdefault(name, set()).add(sn)
         for f in fns:
             if ty_re.search(f.ret):
                 hashy_fns[f.name] = 'fn %s returns %s' % (rel, norm(f.ret))
@@ -426,12 +440,73 @@ def scan(repo):
                 if ty_re.search(init): reason = 'let = ' + norm(init)[:60]
                 elif fn_re and fn_re.search(init.split('{')[0]) and not re.search(r'\.(get|len|contains_key|contains|is_empty|remove|insert|entry)\s*\(', init.split('{')[0]):
                     reason = 'let = call of hashy fn: ' + norm(init)[:60]
+                else:
+                    reason = alias_of_container(rel, m.start(), init)
                 if reason:
                     d = local_names.setdefault((rel, f.start), {})
                     if m.group(1) not in d:
                         d[m.group(1)] = reason; ch = True
         return ch
     # ---- sites
+    destructured_cache = {}
+    def destructured(rel, f, t):
+        """fn f contains a struct pattern / literal `S { .. t .. }` of a struct S that declares a hash-typed field t"""
+        key = (rel, f.start, t)
+        if key not in destructured_cache:
+            body = files[rel][1][f.start:f.body_close + 1]
+            owners = struct_fields.get(t, set())
+            ok = False
+            if owners:
+                for m in re.finditer(r'\b(?:%s)\s*(?:<[^{}()]*>)?\s*\{' % '|'.join(sorted(owners)), body):
+                    e = match_close(body, m.end() - 1)
+                    if e > 0 and re.search(r'(?<![\w.])%s\b' % re.escape(t), body[m.end():e]): ok = True; break
+            destructured_cache[key] = ok
+        return destructured_cache[key]
+    def global_name_applies(rel, scopes, t, text):
+        """a hash-typed field name counts when it is used as a field (`.t`); bare `t` counts only if the name is also a
+        hash-typed parameter somewhere or the enclosing fn destructures a struct that owns such a field"""
+        text = re.sub(r'\.\.=?', ' ', text)      # range operators are not field accesses
+        if re.search(r'\.\s*%s\b' % re.escape(t), text): return True
+        if not re.search(r'(?<![\w.])%s\b' % re.escape(t), text): return False
+        if any(r.startswith('param:') for r in global_names[t]): return True
+        return any(destructured(rel, f, t) for f in scopes)
+    PRESERVING = {'last', 'first', 'last_mut', 'first_mut', 'unwrap', 'expect', 'as_ref', 'as_mut', 'clone', 'cloned', 'borrow',
+                  'borrow_mut', 'unwrap_or_default', 'pop', 'take', 'as_deref', 'to_owned'}
+    ELEMENT = {'get', 'get_mut', 'entry', 'or_default', 'or_insert_with', 'or_insert', 'remove', 'or_insert_with_key'}
+    def alias_of_container(rel, pos, init):
+        """`let x = <place>` where <place> is a hash container reached by field access / unwrap / last / clone ..., or an
+        element of a nested one: returns the reason text, or None"""
+        head = re.split(r'[{|]', init)[0].rstrip().rstrip(';').strip()
+        head = re.sub(r'^(&\s*mut\s+|&|\*|mut\s+)+', '', head).strip()
+        m = re.match(r'((?:%s)(?:\s*::\s*%s)*(?:\s*\.\s*(?:%s|\d+))*)' % (IDENT, IDENT, IDENT), head)
+        if not m: return None
+        rest = head[m.end():]
+        base = m.group(1)
+        # peel trailing field names that are really method names (followed by '(')
+        if rest.startswith('('):
+            k = base.rfind('.')
+            if k < 0: return None
+            rest = base[k:] + rest; base = base[:k]
+        names = hashy_in(rel, pos, base)
+        if not names: return None
+        decl = decl_of(rel, pos, names)
+        nested = len(base_ty_re.findall(decl)) >= 2 or 'Vec<' in decl
+        while rest.strip():
+            rest = rest.strip()
+            if rest[0] == '?': rest = rest[1:]; continue
+            if rest[0] == '[':
+                e = match_close(rest, 0)
+                if e < 0 or not nested: return None
+                rest = rest[e + 1:]; continue
+            mm = re.match(r'\.\s*(%s)\s*(?:::<[^()]*>)?\s*\(' % IDENT, rest)
+            if not mm: return None
+            e = match_close(rest, mm.end() - 1)
+            if e < 0: return None
+            if mm.group(1) in PRESERVING: pass
+            elif mm.group(1) in ELEMENT and nested: pass
+            else: return None
+            rest = rest[e + 1:]
+        return 'let = alias of ' + norm(base)[:50] + ' (' + decl[:80] + ')'
     def hashy_in(rel, pos, text):
         """the hashy names mentioned in text at position pos of file rel"""
         found = []
@@ -442,7 +517,7 @@ def scan(repo):
                 if b <= pos <= e and nm in tuple_structs and re.search(r'\bself\s*\.\s*\d', text):
                     found.append('self.N'); break
         for t in toks:
-            if t in global_names: found.append(t)
+            if t in global_names and global_name_applies(rel, scopes, t, text): found.append(t)
             elif t in hashy_fns and re.search(r'\b%s\s*(?:::<[^()]*>)?\s*\(' % re.escape(t), text): found.append(t + '()')
             else:
                 for f in scopes:
